@@ -60,7 +60,7 @@ Definition expected_sp_receivers : list (string * list string) := [
   ("src/lib.rs", []);
   ("src/nodes.rs", []);
   ("src/parser/alert.rs", []);
-  ("src/parser/autolink.rs", ["after_ast"; "borrow_mut()"]);
+  ("src/parser/autolink.rs", ["borrow_mut()"]);
   ("src/parser/inlines.rs", ["borrow()"; "borrow_mut()"; "last_child"; "node_ast"]);
   ("src/parser/math.rs", []);
   ("src/parser/mod.rs", ["ast"; "borrow()"; "borrow_mut()"; "n_ast"; "node_data"]);
